@@ -24,9 +24,20 @@ def mapping(I, pairs, region="param"):
     return SRef(I.P.alloc(HDict([(sname(c), sname(u)) for c, u in pairs], region=region)))
 
 
+_CUR = [None]  # the interpreter of the path being explored (set by build_manager)
+
+
+def _odu(I, system):
+    """the system's on_default_unit callback, wherever the code keeps it (instance field in the real code; read
+    through attribute lookup so that a class-level, shared callback object is seen as such)"""
+    f = system.o.fields.get("on_default_unit")
+    return f if f is not None else (I or _CUR[0]).getattr(system, "on_default_unit")
+
+
 def build_manager(I, k, current, template_cats=None):
     """a manager satisfying MI with k registered systems (ids, mappings symbolic)"""
     P = I.P
+    _CUR[0] = I
     callbacks.install(I)
     mcls = I.repo.cls(USM)
     mgr = SRef(P.alloc(HObj(mcls, region="manager")))
@@ -49,7 +60,7 @@ def build_manager(I, k, current, template_cats=None):
     if current is not None:
         cur = systems[current]
         mgr.o.fields["_current"] = cur
-        cur.o.fields["on_default_unit"].listeners.append(I.getattr(mgr, "_CategoryUnitChange"))
+        _odu(I, cur).listeners.append(I.getattr(mgr, "_CategoryUnitChange"))
     if template_cats is not None:
         t = I.call(ucls, [SStr("template"), SStr("Unit system template"), mapping(I, [(c, z3.Const("tmpl_unit", NameS)) for c in template_cats], region="template-mapping"), SBool(True)])
         mgr.o.fields["_unit_system_template"] = t
@@ -62,7 +73,7 @@ def registered(mgr):
 
 
 def listener_on(mgr, s):
-    return any(isinstance(l, SBound) and isinstance(l.self_, SRef) and l.self_.o is mgr.o for l in s.o.fields["on_default_unit"].listeners)
+    return any(isinstance(l, SBound) and isinstance(l.self_, SRef) and l.self_.o is mgr.o for l in _odu(None, s).listeners)
 
 
 def MI(I, mgr, known_systems):
@@ -82,7 +93,7 @@ def MI(I, mgr, known_systems):
             return F
     for s in set([v for _, v in ents] + list(known_systems), key=None) if False else list({id(x.o): x for x in [v for _, v in ents] + list(known_systems)}.values()):
         want = cur is not SNone and s.o is cur.o
-        n = sum(1 for l in s.o.fields["on_default_unit"].listeners if isinstance(l, SBound) and isinstance(l.self_, SRef) and l.self_.o is mgr.o)
+        n = sum(1 for l in _odu(I, s).listeners if isinstance(l, SBound) and isinstance(l.self_, SRef) and l.self_.o is mgr.o)
         if n != (1 if want else 0):
             return F
     return And(conj)
@@ -106,7 +117,7 @@ def snapshot(mgr, systems):
         "current": mgr.o.fields["_current"],
         "template": mgr.o.fields["_unit_system_template"],
         "maps": [(s, list(s.o.fields["_units_mapping"].o.entries), s.o.fields["_units_mapping"].o) for s in systems],
-        "listeners": [(s, list(s.o.fields["on_default_unit"].listeners)) for s in systems],
+        "listeners": [(s, list(_odu(None, s).listeners)) for s in systems],
     }
 
 
@@ -127,7 +138,7 @@ def unchanged(I, mgr, snap):
         for (k, v), (k0, v0) in zip(m.entries, ents):
             conj += [to_z3b(I.equal(k, k0)), to_z3b(I.equal(v, v0))]
     for s, ls in snap["listeners"]:
-        if len(s.o.fields["on_default_unit"].listeners) != len(ls):
+        if len(_odu(I, s).listeners) != len(ls):
             return F
     return And(conj)
 
@@ -437,3 +448,70 @@ class ManagerSpec(FunctionSpec):
         if isinstance(obj, HDict) and obj is ctx["mgr"].o.fields["_unit_systems"].o:
             return True
         return FunctionSpec.allowed_write(self, I, ctx, obj, what)
+
+
+@register
+class UnitSystemEqualitySpec(FunctionSpec):
+    """UnitSystem == / != (C08): never raise, reflexive, symmetric, and mean 'same id, caption, mapping and
+    read-only flag'; against None / str / int: unequal."""
+
+    fq = US + ".__eq__"
+    key = US + "#equality"
+    props = ("C08",)
+    probe = "equality"
+
+    def variants(self, tier):
+        return [(na, nb) for na in (0, 1, 2) for nb in (0, 1, 2)] + [("other", k) for k in ("none", "str", "int")]
+
+    def setup(self, I, variant):
+        import ast as _ast
+        from .values import harness
+
+        P = I.P
+        callbacks.install(I)
+        ucls = SClass(I.repo.cls(US))
+
+        def mk(tag, n):
+            cats = [z3.Const("%s_cat%d" % (tag, i), NameS) for i in range(n)]
+            if n > 1:
+                P.assume(z3.Distinct(*cats), "pre:dict keys are distinct")
+            m = mapping(I, [(c, z3.Const("%s_unit%d" % (tag, i), NameS)) for i, c in enumerate(cats)], region="system-mapping")
+            ro = SBool(P.fresh(tag + "_ro", z3.BoolSort()))
+            return I.call(ucls, [sname(z3.Const(tag + "_id", NameS)), sname(z3.Const(tag + "_caption", NameS)), m, ro]), m
+
+        if variant[0] == "other":
+            a, ma = mk("a", 1)
+            b = {"none": SNone, "str": sname(z3.Const("other_s", NameS)), "int": SNum(z3.Int("other_i"), "int")}[variant[1]]
+            mb = None
+        else:
+            a, ma = mk("a", variant[0])
+            b, mb = mk("b", variant[1])
+
+        def run(I):
+            return STuple([I.compare(_ast.Eq(), a, b), I.compare(_ast.Eq(), b, a), I.compare(_ast.NotEq(), a, b), I.compare(_ast.NotEq(), b, a), I.compare(_ast.Eq(), a, a)])
+
+        return {"f": harness(run), "args": [], "a": a, "b": b, "ma": ma, "mb": mb, "variant": variant}
+
+    def cases(self, I, ctx):
+        a, b, ma, mb = ctx["a"], ctx["b"], ctx["ma"], ctx["mb"]
+
+        def chk(I, res):
+            if not all(isinstance(x, SBool) for x in res.items):
+                return F
+            e1, e2, n1, n2, r = [to_z3b(x.t) for x in res.items]
+            conj = [e1 == e2, n1 == z3.Not(e1), n2 == z3.Not(e2), r]
+            if mb is None:
+                conj.append(z3.Not(e1))
+            else:
+                fa, fb = a.o.fields, b.o.fields
+                ea, eb = ma.o.entries, mb.o.entries
+                # dict equality: same key set with equal values (order-insensitive)
+                if len(ea) != len(eb):
+                    same_map = F
+                else:
+                    same_map = And([Or([z3.And(to_z3b(I.equal(k1, k2)), to_z3b(I.equal(v1, v2))) for k2, v2 in eb]) for k1, v1 in ea])
+                same = z3.And(to_z3b(I.equal(fa["_id"], fb["_id"])), to_z3b(I.equal(fa["_caption"], fb["_caption"])), same_map, to_z3b(I.equal(fa["_read_only"], fb["_read_only"])))
+                conj.append(e1 == same)
+            return And(conj)
+
+        return [ret("total-symmetric-reflexive", T, check=chk)]
